@@ -100,7 +100,7 @@ def scenario(rng, root, idx):
         files[n] = fn
         with open(os.path.join(src, fn), 'w') as f:
             f.write(text)
-    kind = rng.choice(['healthy', 'healthy', 'broken', 'missing', 'unknown-request', 'borrow', 'borrow'])
+    kind = rng.choice(['healthy', 'healthy', 'broken', 'missing', 'unknown-request', 'borrow', 'borrow', 'two-sources', 'two-sources'])
     requested = [names[-1]] if rng.random() < 0.5 else list(names)
     if kind == 'broken':
         victim = rng.choice(names)
@@ -111,6 +111,15 @@ def scenario(rng, root, idx):
         os.remove(os.path.join(src, files[names[0]]))
     elif kind == 'unknown-request':
         requested = requested + ['ZZ-NOT-THERE-MIB']
+    sources = [src]
+    if kind == 'two-sources':
+        # an earlier repository holds an unparsable (or empty) copy of a module, a later one the healthy copy
+        src0 = os.path.join(d, 'src0')
+        os.makedirs(src0)
+        victim = rng.choice(names)
+        with open(os.path.join(src0, files[victim]), 'w') as f:
+            f.write(rng.choice(['this is not a MIB ::= BEGIN $', '', open(os.path.join(src, files[victim])).read()[:40]]))
+        sources = [src0, src]
     fmt = rng.choice(['json', 'json', 'pysnmp', 'null'])
     if kind == 'borrow':
         # a module without usable source that the borrower repository has pre-compiled; sometimes another one nobody has
@@ -129,9 +138,9 @@ def scenario(rng, root, idx):
             opts.append(o)
     if fmt == 'pysnmp' and rng.random() < 0.5:
         opts.append('--no-python-compile')
-    args = [MIBDUMP, '--mib-source=file://' + src, '--mib-borrower=file://' + empty, '--destination-format=' + fmt,
+    args = [MIBDUMP] + ['--mib-source=file://' + x for x in sources] + ['--mib-borrower=file://' + empty, '--destination-format=' + fmt,
             '--destination-directory=' + dst] + opts + requested
-    return {'dir': d, 'src': src, 'dst': dst, 'empty': empty, 'format': fmt, 'opts': opts, 'requested': requested, 'kind': kind, 'args': args,
+    return {'dir': d, 'src': src, 'sources': sources, 'dst': dst, 'empty': empty, 'format': fmt, 'opts': opts, 'requested': requested, 'kind': kind, 'args': args,
             'names': names}
 
 
@@ -165,7 +174,7 @@ def library_statuses(sc):
         cg = NullCodeGen()
         wr = CallbackWriter(lambda *x: None)
     comp = MibCompiler(SmiV1CompatParser(tempdir=''), cg, wr)
-    comp.addSources(*getReadersFromUrls('file://' + sc['src'], **dict(fuzzyMatching=True)))
+    comp.addSources(*getReadersFromUrls(*['file://' + x for x in sc['sources']], **dict(fuzzyMatching=True)))
     comp.addSearchers(*searchers)
     comp.addBorrowers(*borrowers)
     res = comp.compile(*sc['requested'], **dict(noDeps='--no-dependencies' in opts, rebuild='--rebuild' in opts, dryRun='--dry-run' in opts,
